@@ -838,6 +838,50 @@ fn op_buf(f: &mut Fields) -> R {
     Ok(out)
 }
 
+/// `pool a;w<k>:<hex>;d<k>;...`: a private `BufferPool`; `a` takes a handle (prints the length of the buffer
+/// it got), `w<k>` pushes bytes through handle k, `d<k>` drops handle k
+fn op_pool(f: &mut Fields) -> R {
+    use crate::buf::pool::{BufferHandle, BufferPool};
+    let spec = f.s()?;
+    f.end()?;
+    let pool = BufferPool::default();
+    let mut hs: Vec<Option<BufferHandle>> = Vec::new();
+    let mut out = String::from("ok ");
+    for (n, op) in spec.split(';').enumerate() {
+        if n > 0 {
+            out.push(';');
+        }
+        if op == "a" {
+            let mut h = pool.acquire();
+            let _ = write!(out, "{}", h.as_mut().len());
+            hs.push(Some(h));
+        } else if let Some(rest) = op.strip_prefix('d') {
+            let k: usize = num(rest)?;
+            match hs.get_mut(k) {
+                Some(slot @ Some(_)) => {
+                    *slot = None;
+                    out.push('-');
+                }
+                _ => return Err(Stop::Bad),
+            }
+        } else if let Some(rest) = op.strip_prefix('w') {
+            let mut p = rest.split(':');
+            let k: usize = num(p.next().ok_or(Stop::Bad)?)?;
+            let d = unhex(p.next().ok_or(Stop::Bad)?)?;
+            if p.next().is_some() {
+                return Err(Stop::Bad);
+            }
+            match hs.get_mut(k) {
+                Some(Some(h)) => unit_or_e(&mut out, h.as_mut().push(&d))?,
+                _ => return Err(Stop::Bad),
+            }
+        } else {
+            return Err(Stop::Bad);
+        }
+    }
+    Ok(out)
+}
+
 // ---------------------------------------------------------------------------
 // Op layer (Python conversion)
 // ---------------------------------------------------------------------------
@@ -1125,6 +1169,7 @@ fn dispatch(line: &str) -> R {
         "startswith" => op_startswith(&mut f),
         "cmparcs" => op_cmparcs(&mut f),
         "buf" => op_buf(&mut f),
+        "pool" => op_pool(&mut f),
         "topy" => op_topy(&mut f),
         "walk" => op_walk(&mut f),
         "p2m" => op_p2m(&mut f),
